@@ -112,12 +112,14 @@ fn err_kind(e: &Error) -> String {
 }
 
 macro_rules! run_inst {
-    ($shards:literal, $D:ty, $short:expr, $seed:expr, $mal:expr, $pad:expr, $records:expr, $BK:ty, $V:ty, $HV:ty, $SS:literal, $B:literal) => {{
+    ($shards:literal, $D:ty, $seed:expr, $mal:expr, $pad:expr, $records:expr, $BK:ty, $V:ty, $HV:ty, $SS:literal, $B:literal) => {{
         let records: Vec<TestHybridRecord> = $records;
         let pad: PaddingParameters = $pad;
-        // a short limit only where the modelled outcome is "never completes" (finding F8: a shard
-        // without rows); everything else gets a limit that a loaded machine cannot reach
-        let secs = if $short { 6 } else if !matches!(pad.oprf_padding, OPRFPadding::NoOPRFPadding) { 280 } else { 200 };
+        // no modelled outcome is "never completes" (F8 is fixed: a shard without rows takes part in
+        // every collective step): a limit that a loaded machine cannot reach
+        // (tiny inputs finish in 1-4 s; their limit is shorter so that a tree on which shards wait for each
+        // other forever - F8 - is reported within the check's budget)
+        let secs = if records.len() <= 8 { 45 } else if !matches!(pad.oprf_padding, OPRFPadding::NoOPRFPadding) { 280 } else { 200 };
         let world = TestWorld::<WithShards<$shards, $D>>::with_shards(c01_config(secs, $seed));
         let inputs = records.into_iter();
         let results: Vec<[Result<Vec<Replicated<$HV>>, Error>; 3]> = if $mal {
@@ -175,6 +177,7 @@ macro_rules! by_shards {
             (1, false) => run_inst!(1, Scripted, $($rest)*),
             (2, false) => run_inst!(2, Scripted, $($rest)*),
             (3, false) => run_inst!(3, Scripted, $($rest)*),
+            (4, false) => run_inst!(4, Scripted, $($rest)*),
             (5, false) => run_inst!(5, Scripted, $($rest)*),
             (2, true) => run_inst!(2, RandomInputDistribution<17>, $($rest)*),
             (3, true) => run_inst!(3, RandomInputDistribution<17>, $($rest)*),
@@ -302,16 +305,14 @@ pub fn exec(req: &str) -> String {
             let assign: Vec<usize> = if rnd { vec![] } else { parse_nat_list(t[5]) };
             let records = parse_records(t[6]);
             assert!(rnd || assign.len() == records.len(), "harness: one shard index per record");
-            // finding F8: some shard receives no record although the query is not empty
-            let short = !rnd && shards > 1 && !records.is_empty() && (0..shards).any(|d| !assign.iter().any(|a| a % shards == d));
             *ASSIGN.lock().unwrap_or_else(|e| e.into_inner()) = assign;
             let inst = t[4].to_string();
             // PRSS / input-sharing randomness of the test world derives from the request line
             let seed = req.bytes().fold(0xcbf2_9ce4_8422_2325u64, |h, b| (h ^ u64::from(b)).wrapping_mul(0x0000_0100_0000_01B3));
             let r = block_on_timeout(300, async move {
                 match inst.as_str() {
-                    "prod" => by_shards!(shards, rnd, short, seed, mal, pad, records, BA8, BA3, BA32, 3, 256),
-                    "small" => by_shards!(shards, rnd, short, seed, mal, pad, records, BA8, BA3, BA8, 3, 256),
+                    "prod" => by_shards!(shards, rnd, seed, mal, pad, records, BA8, BA3, BA32, 3, 256),
+                    "small" => by_shards!(shards, rnd, seed, mal, pad, records, BA8, BA3, BA8, 3, 256),
                     i => panic!("harness: unknown instantiation {i}"),
                 }
             });
@@ -433,9 +434,66 @@ pub fn gen_e2e(rng: &mut Rng, thorough: bool) -> Vec<String> {
                 let a2 = nat_list(&(0..recs.len()).map(|i| i % 2).collect::<Vec<_>>());
                 out.push(format!("c01.e2e mal 2 0 small {a2} {}", rec_str(&recs)));
             }
-            // --- known finding F8 witnesses: a shard that enters with no rows (2 shards, everything on shard 0)
+            // --- F8 (fixed) witnesses: a shard that enters with no rows (2 shards, everything on shard 0)
             out.push("c01.e2e sh 2 0 prod 0,0,0,0 i:1:2,c:1:3,i:2:2,c:2:4".to_string());
             out.push("c01.e2e mal 2 0 prod 0,0,0,0 i:1:2,c:1:3,i:2:2,c:2:4".to_string());
+            // --- tiny multi-shard inputs: shards without rows at every stage (on entry; after the input
+            // shuffle; without pairs after resharding by pseudonym; without rows after the second shuffle),
+            // an empty leader, an entirely empty multi-shard query, nothing attributed anywhere
+            {
+                const SIX: [(char, u64, u32); 6] = [('i', 1, 2), ('c', 1, 3), ('i', 2, 7), ('c', 2, 4), ('c', 3, 1), ('i', 4, 9)];
+                let combos = [("sh", 0), ("mal", 1), ("mal", 0), ("sh", 1)];
+                let mut k = 0usize;
+                // every assignment of the first 0..=4 reports to 2 shards (31 assignments); quick: the
+                // (mode, padding) combination rotates, thorough: all four
+                for n in 0..=4usize {
+                    for bits in 0..(1usize << n) {
+                        let a = nat_list(&(0..n).map(|j| (bits >> j) & 1).collect::<Vec<_>>());
+                        let r = rec_str(&SIX[..n]);
+                        for (c, (mode, pad)) in combos.iter().enumerate() {
+                            if thorough || c == k % 4 {
+                                out.push(format!("c01.e2e {mode} 2 {pad} prod {a} {r}"));
+                            }
+                        }
+                        k += 1;
+                    }
+                }
+                // 2..=5 shards x 0..=6 reports: everything on the leader / on the last shard (empty leader) /
+                // round robin / random
+                for shards in 2..=5usize {
+                    for n in 0..=6usize {
+                        let r = rec_str(&SIX[..n]);
+                        for style in 0..4u64 {
+                            let a = match style {
+                                0 => nat_list(&vec![0usize; n]),
+                                1 => nat_list(&vec![shards - 1; n]),
+                                2 => nat_list(&(0..n).map(|j| j % shards).collect::<Vec<_>>()),
+                                _ => nat_list(&(0..n).map(|_| rng.usize_below(shards)).collect::<Vec<_>>()),
+                            };
+                            for (c, (mode, pad)) in combos.iter().enumerate() {
+                                if (thorough && (c + n) % 2 == 0) || (style == ((shards + n) % 4) as u64 && c == k % 4) {
+                                    out.push(format!("c01.e2e {mode} {shards} {pad} prod {a} {r}"));
+                                }
+                            }
+                            k += 1;
+                        }
+                    }
+                }
+                // nothing attributed on any shard (only impressions / only conversions / a triple), and
+                // both pairs of a 3-shard query on the LAST shard's input
+                out.push("c01.e2e sh 3 0 prod 0,1,2 i:1:1,i:2:2,i:3:3".to_string());
+                out.push("c01.e2e mal 2 0 prod 1,1 c:1:1,c:2:2".to_string());
+                out.push("c01.e2e mal 3 1 prod 2,1,0 i:5:1,c:5:2,c:5:3".to_string());
+                out.push("c01.e2e sh 3 1 prod 2,2,2,2 i:1:2,c:1:3,i:2:7,c:2:4".to_string());
+                // saturation across shards with one empty shard (small instantiation, 3 shards, shard 1 empty)
+                let mut recs = vec![];
+                for j in 0..40u64 {
+                    recs.push(('i', 2000 + j, 3));
+                    recs.push(('c', 2000 + j, 7));
+                }
+                let a = nat_list(&(0..recs.len()).map(|i| if i % 2 == 0 { 0 } else { 2 }).collect::<Vec<_>>());
+                out.push(format!("c01.e2e sh 3 0 small {a} {}", rec_str(&recs)));
+            }
             // --- pairs split across shards (the two reports of a match key arrive on DIFFERENT shards and
             // meet only after resharding by pseudonym); value sums that wrap (7+7 -> 6 in bucket 0);
             // double impressions whose breakdown keys wrap (200+100); a triple spread over three shards
@@ -472,14 +530,13 @@ pub fn gen_e2e(rng: &mut Rng, thorough: bool) -> Vec<String> {
             // --- random structured multisets
             let n_runs = if thorough { 60 } else { 8 };
             for i in 0..n_runs {
-                let shards = if i < 4 { [1usize, 2, 3, 5][i] } else { *rng.pick(&[1usize, 2, 3, 5]) };
+                let shards = if i < 5 { [1usize, 2, 3, 5, 4][i] } else { *rng.pick(&[1usize, 2, 3, 4, 5]) };
                 let mode = if rng.bool() { "sh" } else { "mal" };
                 let pad = if i % 3 == 2 { 1 } else { 0 };
                 let inst = if i % 4 == 3 { "small" } else { "prod" };
                 let (max_bk, max_v) = (256, 8);
-                // enough keys that no shard is left without rows or pairs at any stage (known finding F8)
-                // except with negligible probability (about 15 pairs per shard, placed by the PRF)
-                let n_keys = 30 * shards + rng.usize_below(10);
+                // many keys per shard, or so few that shards run out of rows / pairs at some stage
+                let n_keys = if i % 2 == 0 { 30 * shards + rng.usize_below(10) } else { rng.usize_below(3 * shards + 1) };
                 let recs = gen_records(rng, n_keys, max_bk, max_v);
                 let style = rng.below(2);
                 let a = assign_str(rng, recs.len(), shards, style);
@@ -496,7 +553,7 @@ fn verif_c01_e2e() {
 // ---- the same suites under the compact step table (props/C01.json "extra_builds": built with
 // `--no-default-features --features compact-gate,…` and IPA_VERIF_DIR = harness/c01_compact, thorough tier).
 // Distinct suite / test names; the quick-tier request lists are used (a second full build plus ~50
-// protocol runs). The two F8 witnesses are left to the default build (known_findings matches by suite).
+// protocol runs), including the multi-shard inputs with empty shards (F8, fixed).
 #[cfg(compact_gate)]
 #[test]
 fn verif_c01c_stages() {
@@ -508,7 +565,7 @@ fn verif_c01c_stages() {
 fn verif_c01c_e2e() {
     run_suite(
         "c01c_e2e",
-        |rng, _| gen_e2e(rng, false).into_iter().filter(|l| !l.ends_with(" 2 0 prod 0,0,0,0 i:1:2,c:1:3,i:2:2,c:2:4")).collect(),
+        |rng, _| gen_e2e(rng, false),
         exec,
     );
 }
